@@ -64,8 +64,90 @@ func (v c38Val) String() string {
 }
 
 type c38Set struct {
-	Path string `json:"path"` // v1 path, e.g. "InMemCollector.MaxAlloc"
+	Path string `json:"path"` // canonical v1 path, e.g. "InMemCollector.MaxAlloc"
 	Val  c38Val `json:"val"`
+	// for settings with alternative v1 group spellings ("SampleCacheConfig/SampleCache.KeptSize"):
+	// the spelling Val is written under ("" = the canonical one), and optionally a second
+	// spelling holding a different value in the same document
+	Group string  `json:"group,omitempty"`
+	Alt   *c38Alt `json:"alt,omitempty"`
+}
+
+type c38Alt struct {
+	Group string `json:"group"`
+	Val   c38Val `json:"val"`
+}
+
+type c38Placement struct {
+	Group string
+	Val   c38Val
+}
+
+func c38Placements(s *c38Setting, st c38Set) []c38Placement {
+	g := st.Group
+	if g == "" {
+		g = s.V1Group
+	}
+	out := []c38Placement{{g, st.Val}}
+	if st.Alt != nil && st.Alt.Group != g && st.Alt.Val.node() != nil {
+		out = append(out, c38Placement{st.Alt.Group, st.Alt.Val})
+	}
+	return out
+}
+
+// c38SetName is the v1 spelling of a generated setting, used in signatures.
+func c38SetName(s *c38Setting, st c38Set) string {
+	pl := c38Placements(s, st)
+	if pl[0].Group == "" {
+		return s.V1Key
+	}
+	if len(pl) == 1 {
+		return pl[0].Group + "." + s.V1Key
+	}
+	var gs []string
+	for _, a := range s.Aliases {
+		for _, p := range pl {
+			if p.Group == a {
+				gs = append(gs, a)
+			}
+		}
+	}
+	if len(gs) != len(pl) {
+		gs = []string{pl[0].Group, pl[1].Group}
+	}
+	return strings.Join(gs, "+") + "." + s.V1Key
+}
+
+// c38Judged says which of the written values the documented lookup order
+// ("A/B.Key": A first, then B) selects. When an earlier alternative section
+// exists in the document only because of *other* keys, the documentation does
+// not say whether the lookup falls through per key: not judged.
+func c38Judged(tab *c38Table, sets []c38Set, st c38Set) (c38Val, bool) {
+	s := tab.ByPath[st.Path]
+	pl := c38Placements(s, st)
+	if len(s.Aliases) == 0 {
+		return pl[0].Val, true
+	}
+	sections := map[string]bool{}
+	for _, o := range sets {
+		if os := tab.ByPath[o.Path]; os != nil {
+			for _, p := range c38Placements(os, o) {
+				sections[p.Group] = true
+			}
+		}
+	}
+	for _, a := range s.Aliases {
+		if !sections[a] {
+			continue
+		}
+		for _, p := range pl {
+			if p.Group == a {
+				return p.Val, true
+			}
+		}
+		return c38Val{}, false
+	}
+	return pl[0].Val, true
 }
 
 type c38Case struct {
@@ -446,9 +528,53 @@ func genC38(t *rapid.T) c38Case {
 			}
 		}
 	}
+	// alternative group spellings: one decision per family and case, so that a
+	// document regularly has ONLY the second spelling (the one v1 implemented)
+	famMode := map[string]int{}
 	for _, i := range idx {
 		s := pool[i]
-		c.Settings = append(c.Settings, c38Set{Path: s.V1Path, Val: c38GenValue(t, s, s.V1Path)})
+		st := c38Set{Path: s.V1Path, Val: c38GenValue(t, s, s.V1Path)}
+		if len(s.Aliases) > 1 {
+			fam := strings.Join(s.Aliases, "/")
+			mode, ok := famMode[fam]
+			if !ok {
+				switch k := c38Roll(t, 20, "alias-"+fam); {
+				case k < 6:
+					mode = 0 // first spelling only
+				case k < 16:
+					mode = 1 // another spelling only
+				default:
+					mode = 2 // both sections, different values
+				}
+				famMode[fam] = mode
+			}
+			other := s.Aliases[1+c38Roll(t, len(s.Aliases)-1, "alias-which-"+fam)]
+			switch mode {
+			case 0:
+				st.Group = s.Aliases[0]
+			case 1:
+				st.Group = other
+			case 2:
+				st.Group = s.Aliases[0]
+				av := c38GenValue(t, s, s.V1Path+"-alt")
+				if av.String() == st.Val.String() {
+					switch av.K {
+					case "int":
+						av.I++
+					case "bool":
+						av.B = !av.B
+					case "str":
+						if s.Type == "duration" {
+							av.S = "47m"
+						} else {
+							av.S += "x"
+						}
+					}
+				}
+				st.Alt = &c38Alt{Group: other, Val: av}
+			}
+		}
+		c.Settings = append(c.Settings, st)
 	}
 	return c
 }
@@ -458,23 +584,22 @@ func c38ConfigDoc(tab *c38Table, sets []c38Set) *c38Node {
 	doc := c38Map()
 	for _, st := range sets {
 		s := tab.ByPath[st.Path]
-		if s == nil {
+		if s == nil || st.Val.node() == nil {
 			continue
 		}
-		n := st.Val.node()
-		if n == nil {
-			continue
+		for _, p := range c38Placements(s, st) {
+			n := p.Val.node()
+			if p.Group == "" {
+				doc.Set(s.V1Key, n)
+				continue
+			}
+			g := doc.Get(p.Group)
+			if g == nil {
+				g = c38Map()
+				doc.Set(p.Group, g)
+			}
+			g.Set(s.V1Key, n)
 		}
-		if s.V1Group == "" {
-			doc.Set(s.V1Key, n)
-			continue
-		}
-		g := doc.Get(s.V1Group)
-		if g == nil {
-			g = c38Map()
-			doc.Set(s.V1Group, g)
-		}
-		g.Set(s.V1Key, n)
 	}
 	return doc
 }
